@@ -4,6 +4,7 @@ package main
 // of the state-word protocol; linearizability itself is NOT decided).
 
 import (
+	"os"
 	"fmt"
 	"go/constant"
 	"go/token"
@@ -226,6 +227,7 @@ func runC03(c *Ctx) {
 	r := c.R
 	c03Encoding(c, m)
 	c03RetryReloads(c, m)
+	c03LookupTotal(c, m, "C03.ptr-ownership")
 	add := m.Func("internal/counter", "Counter.Add")
 	relR := m.Func("internal/counter", "Counter.releaseReader")
 	relL := m.Func("internal/counter", "Counter.releaseLock")
@@ -1201,4 +1203,71 @@ func c03RetryReloads(c *Ctx, m *Module) {
 		}
 	}
 	r.Check("C03.locking", "compare-and-swap retry sites enumerated", "-", n >= 5, fmt.Sprintf("%d", n))
+}
+
+// c03LookupTotal: (*file).lookup gives a counter its pointer whenever the file is mapped and the
+// record can be made. It may come back empty-handed only when no file is mapped or newCounter
+// failed (and it hands newCounter the caller's name unchanged). Add never repeats the lookup:
+// a lookup that gives up for any other reason — the file mutex is busy, say — leaves the
+// counter marked "has pointer" with none, and every later increment stays in memory.
+func c03LookupTotal(c *Ctx, m *Module, rule string) {
+	r := c.R
+	lk := m.Func("internal/counter", "file.lookup")
+	n := 0
+	for _, ex := range exitPaths(lk) {
+		n++
+		v := strip(refine(ex.vals[0], ex.facts))
+		// a non-empty result: a struct carrying the mapping and the pointer
+		empty := false
+		switch x := v.(type) {
+		case *ssa.Const:
+			empty = true
+		case *ssa.UnOp:
+			if a, ok := x.X.(*ssa.Alloc); ok {
+				if lit, okLit := structLit(a); okLit {
+					empty = len(lit) == 0
+				} else {
+					empty = true
+				}
+			}
+		}
+		if !empty {
+			continue
+		}
+		reason := hasFact(ex.facts, func(f Fact) bool {
+			bo, ok := f.Cond.(*ssa.BinOp)
+			if !ok || !assertsEq(bo, f.Pol) {
+				return false
+			}
+			for _, pair := range [][2]ssa.Value{{bo.X, bo.Y}, {bo.Y, bo.X}} {
+				if !isNilConst(pair[1]) {
+					continue
+				}
+				d := describe(pair[0])
+				if strings.Contains(d, ".current") && strings.Contains(d, ").Load") {
+					return true // no mapped file
+				}
+				if strings.Contains(d, ").newCounter(") {
+					return true // the record could not be made
+				}
+			}
+			return false
+		})
+		if os.Getenv("VERIF_DEBUG_LOOKUP") != "" {
+			fmt.Printf("LOOKUP exit %d val=%s\n", n, describe(v))
+			for _, f := range ex.facts {
+				fmt.Printf("    %v %s\n", f.Pol, shortDesc(describe(f.Cond)))
+			}
+		}
+		r.Check(rule, fmt.Sprintf("file.lookup/empty result #%d only without a mapped file or a record", n), m.Pos(ex.ret.Pos()), reason,
+			"lookup may return no pointer only when f.current is nil or newCounter failed")
+	}
+	r.Check(rule, "file.lookup/results enumerated", m.Pos(lk.Pos()), n >= 2, fmt.Sprintf("%d", n))
+	nc := 0
+	for _, cs := range callsIn(lk, "(*internal/counter.file).newCounter") {
+		nc++
+		r.Check(rule, "file.lookup/the record is made under the caller's name", m.Pos(cs.Pos()), strip(cs.Common().Args[1]) == ssa.Value(lk.Params[1]),
+			"newCounter must be given lookup's own name parameter; got "+shortDesc(describeArg(cs, 1)))
+	}
+	r.Check(rule, "file.lookup/calls newCounter", m.Pos(lk.Pos()), nc == 1, fmt.Sprintf("%d", nc))
 }
